@@ -102,8 +102,17 @@ OkIter(e) ==
        /\ e.res.items = [i \in 1..Len(items) |-> Pub(items[i])]
        /\ WalkFieldOk(e)
 
+\* C15 on a table given by description (StrTab.tla: GetRawS)
+OkStrS(e) ==
+    LET b == Rec[slots[e.bufslot]]
+        r == GetRawS(b, e.off)
+    IN IF ~WellDescribed(b) THEN TRUE
+       ELSE IF e.op = "str_get" /\ ~AsciiS(b) THEN TRUE
+       ELSE IF r.ok THEN Out(e) = "ok" /\ e.res.s = RangeJ(r.start, r.len) /\ e.res.n = r.len
+       ELSE Out(e) = "err"
 \* C15
 OkStr(e) ==
+    IF Has(e, "bufslot") /\ ~Has(Rec[slots[e.bufslot]], "bytes") THEN OkStrS(e) ELSE
     LET buf == Buf(e, "buf")
         raw == GetRaw(buf, e.off)
         r == IF e.op = "str_get_raw" THEN raw ELSE Get(buf, e.off)
@@ -163,7 +172,7 @@ DriftFind(e) ==
         hb == Buf(e, "hash") sy == Buf(e, "sym") st == Buf(e, "str")
         r == IF e.op = "sysv_find" THEN SysvFind(e.class, little, hb, sy, st, e.name)
              ELSE GnuFind(e.class, little, hb, sy, st, e.name)
-    IN Has(e, "hdr_edit") \/ (Out(e) = r.out /\ (r.out = "ok" => (e.res.idx = r.idx /\ e.res.sym = r.sym)))
+    IN Has(e, "hdr_edit") \/ Has(e, "big") \/ (Out(e) = r.out /\ (r.out = "ok" => (e.res.idx = r.idx /\ e.res.sym = r.sym)))
 \* (hdr_edit: the caller wrote to the table's public header fields before the lookup; only totality and soundness are judged)
 \* a table the generator claims well formed must satisfy the format's own well-formedness predicate
 GenOkFind(e) ==
@@ -218,13 +227,14 @@ FileOf(slot) == LET b == Rec[slots[slot]]
                    ELSE [len |-> b.len, dense |-> FALSE, fill |-> b.fill, chunks |-> b.chunks]
 
 OkOpen(e) == OpenOk(FileOf(e.fileslot), e, FALSE)
-OkQ(e) == IF fh = <<>> THEN Out(e) = "closed" ELSE QueryOk(fh.f, fh.eb, e, FALSE)
+\* (edited: the caller wrote to the handle's public `ehdr` field; from then on only totality is judged)
+OkQ(e) == IF fh = <<>> THEN Out(e) = "closed" ELSE IF fh.edited THEN TRUE ELSE QueryOk(fh.f, fh.eb, e, FALSE)
 
 \* C18: the same query on the complete file (slot "full", of which the opened file is a prefix) gives
 \* the same answer unless the prefix gives an error -- a statement about the specification's own
 \* semantics, evaluated on every recorded query; conformance (OkQ) transfers it to the code
 PrefixRel(e) ==
-    (fh # <<>> /\ "full" \in DOMAIN slots) =>
+    (fh # <<>> /\ ~fh.edited /\ "full" \in DOMAIN slots) =>
         LET ff == FileOf("full")
             o == Open(ff, Rec[fh.openl].es)
             po == QOut(fh.f, fh.eb, e, FALSE)
@@ -235,7 +245,7 @@ PrefixRel(e) ==
 
 \* the same for the stream parser
 PrefixRelS(e) ==
-    (sth # <<>> /\ "full" \in DOMAIN slots /\ ~e.faulted /\ ~sth.hadfault) =>
+    (sth # <<>> /\ ~sth.edited /\ "full" \in DOMAIN slots /\ ~e.faulted /\ ~sth.hadfault) =>
         LET ff == FileOf("full")
             o == Open(ff, Rec[sth.openl].es)
             po == QOut(sth.f, sth.eb, e, TRUE)
@@ -258,6 +268,7 @@ LazySOpen(e) == ReadsWithin(e.io, OpenRanges(FileOf(e.fileslot), e.es))
 StricterLikeSlice(e) == e.name = "dynamic" /\ Out(e) = "err" /\ QOut(sth.f, sth.eb, e, FALSE) = "err"
 OkSQ(e) ==
     IF sth = <<>> THEN Out(e) = "closed"
+    ELSE IF sth.edited THEN TRUE
     ELSE IF e.faulted THEN Out(e) = "err"
     ELSE IF sth.hadfault THEN (Out(e) = "err" \/ QueryOk(sth.f, sth.eb, e, TRUE))   \* C17: no residue
     ELSE (QueryOk(sth.f, sth.eb, e, TRUE) \/ StricterLikeSlice(e)) /\ RelC07(sth.f, sth.eb, e)
@@ -267,7 +278,7 @@ OkSBulk(e) ==
     ELSE LET B(i) == ByteAt(sth.f, i)
              x == BulkExp(B, sth.f.len, e.n, e.m)
          IN Out(e) = "ok" /\ e.res.nok = x[1] /\ e.res.sum = x[2]
-LazySQ(e) == sth # <<>> => ReadsWithin(e.io, QRanges(sth.f, sth.eb, e, TRUE))
+LazySQ(e) == (sth # <<>> /\ ~sth.edited) => ReadsWithin(e.io, QRanges(sth.f, sth.eb, e, TRUE))
 
 \* ---- C19: exported ABI definitions ------------------------------------------------------------
 RefOf(name) == IF name \in DOMAIN AbiRef THEN AbiRef[name]
@@ -293,7 +304,7 @@ OkToString(e) == NamesValue(e.s, e.arg) \/ e.has_dec \/ e.has_hex
 ---------------------------------------------------------------------------
 \* does the specification allow event e in the current state?
 Allowed(e) ==
-    CASE e.op \in {"session", "buf", "tbl_new", "symver_new", "hash_wf"} -> TRUE
+    CASE e.op \in {"session", "buf", "tbl_new", "symver_new", "hash_wf", "ehdr_edit"} -> TRUE
       [] e.op = "misc" -> Out(e) = "ok"          \* beyond the listed properties: Display/Debug/source and the prose helpers are total
       [] e.op = "notes" -> OkNotes(e)
       [] e.op \in {"sysv_hash", "gnu_hash"} -> OkHashFn(e)
@@ -376,11 +387,13 @@ Step ==
                      [] OTHER -> ht
           /\ fh' = CASE e.op = "session" -> <<>>
                      [] e.op = "open" -> (LET f == FileOf(e.fileslot) o == Open(f, e.es)
-                                         IN IF o.ok THEN [f |-> f, eb |-> o, openl |-> l] ELSE <<>>)
+                                         IN IF o.ok THEN [f |-> f, eb |-> o, openl |-> l, edited |-> FALSE] ELSE <<>>)
+                     [] e.op = "ehdr_edit" -> IF fh = <<>> THEN fh ELSE [fh EXCEPT !.edited = TRUE]
                      [] OTHER -> fh
           /\ sth' = CASE e.op = "session" -> <<>>
                      [] e.op = "sopen" -> (LET f == FileOf(e.fileslot) o == Open(f, e.es)
-                                          IN IF o.ok /\ Out(e) = "ok" THEN [f |-> f, eb |-> o, openl |-> l, hadfault |-> FALSE] ELSE <<>>)
+                                          IN IF o.ok /\ Out(e) = "ok" THEN [f |-> f, eb |-> o, openl |-> l, hadfault |-> FALSE, edited |-> FALSE] ELSE <<>>)
+                     [] e.op = "ehdr_edit" -> IF sth = <<>> THEN sth ELSE [sth EXCEPT !.edited = TRUE]
                      [] e.op = "sq" -> IF sth # <<>> /\ e.faulted THEN [sth EXCEPT !.hadfault = TRUE] ELSE sth
                      [] OTHER -> sth
           /\ consts' = CASE e.op = "session" -> [x \in {} |-> <<>>]
